@@ -1205,6 +1205,36 @@ def n6(ctx):
               'a slice of an accessor is an accessor over that slice of its entries; an index is the entry',
               'PyTreeAccessor.__getitem__ does not return self.__class__(<tuple slice>) for slices and the '
               'entry for indices', mod.loc(gi))
+    # entry + entry / entry + accessor: the entry itself comes first
+    eadd = mod.funcs.get('PyTreeEntry.__add__')
+    ctx.require(eadd is not None, 'PyTreeEntry.__add__ not found')
+    s3, o3 = params(eadd)[:2]
+    shapes3 = {}
+    par3 = {}
+    for n in ast.walk(eadd):
+        for c in ast.iter_child_nodes(n):
+            par3[id(c)] = n
+    for r in [r for r in walk(eadd) if isinstance(r, ast.Return) and r.value is not None]:
+        cls_, cur = None, r
+        while id(cur) in par3:
+            p_ = par3[id(cur)]
+            if isinstance(p_, ast.If) and any(cur is x for x in p_.body):
+                m = pmatch(p_.test, 'isinstance(?o, ?c)', {'o': o3})
+                if m is not None:
+                    cls_ = m['c'] if isinstance(m['c'], str) else src(p_.test.args[1])
+            cur = p_
+        shapes3[cls_] = r.value
+    env3 = {'s': s3, 'o': o3}
+    ctx.check('PyTreeEntry.__add__/entry', 'PyTreeEntry' in shapes3 and
+              pmatch(shapes3['PyTreeEntry'], 'PyTreeAccessor((?s, ?o))', env3) is not None,
+              'entry + entry is the accessor (left, right)',
+              'entry + entry builds `%s`' % (src(shapes3['PyTreeEntry']) if 'PyTreeEntry' in shapes3 else 'nothing'),
+              mod.loc(eadd))
+    ctx.check('PyTreeEntry.__add__/accessor', 'PyTreeAccessor' in shapes3 and
+              pmatch(shapes3['PyTreeAccessor'], 'PyTreeAccessor((?s, *?o))', env3) is not None,
+              'entry + accessor is the entry followed by the accessor\'s entries',
+              'entry + accessor builds `%s`: the joined accessor does not apply the entry first'
+              % (src(shapes3['PyTreeAccessor']) if 'PyTreeAccessor' in shapes3 else 'nothing'), mod.loc(eadd))
 
 
 G9_MUTATORS = {'append', 'extend', 'pop', 'update', 'insert', 'clear', 'setdefault', 'remove', 'popitem',
